@@ -1,39 +1,16 @@
 /-
 C04 — `intersect`: every common member of two values is a member of the intersection.
 
-The proof does not need the correctness of the chinese-remainder computation: the code verifies its
-candidate (`lcm % stride = 0`, both congruences), so soundness follows from `extended_gcd` returning the
-gcd and from `lcm ∣` every common multiple. What is NOT proved is that the computation never reports
-`Err` ("integer overflow") when the intersection is representable; the theorem carries that as a
-hypothesis (`_partial`).
+`CweModel.C04.Crt` proves that the chinese-remainder computation cannot overflow and passes the code's
+own verification whenever `lcm(strides) ≤ u64::MAX`, and that it answers `Err` otherwise. Here this is
+combined with `adjust_to_stride_and_remainder`: `intersect_sound`, `intersect_none_no_common`
+(unconditional for `lcm ≤ u64::MAX`) and `intersect_complete` (what the code does for all operands).
 -/
 import CweModel.C04.Crt
 import CweModel.C02.Count
 
 namespace CweModel.C04
 open CweModel.Itv CweModel.C02
-
-/-! ### `extended_gcd` returns the gcd -/
-
-theorem extendedGcdAux_fst (fuel a b : Nat) (h : a < fuel) :
-    (extendedGcdAux fuel (a : Int) (b : Int)).1 = ((Nat.gcd a b : Nat) : Int) := by
-  induction fuel generalizing a b with
-  | zero => omega
-  | succ f ih =>
-    unfold extendedGcdAux
-    by_cases ha : a = 0
-    · subst ha; simp
-    · have ha' : ¬ ((a : Int) = 0) := by omega
-      rw [if_neg ha']
-      simp only
-      rw [trem_natCast]
-      have hlt : b % a < f := by
-        have := Nat.mod_lt b (show 0 < a by omega); omega
-      rw [ih (b % a) a hlt, Nat.gcd_rec a b]
-
-theorem extendedGcd_fst (a b : Nat) : (extendedGcd (a : Int) (b : Int)).1 = ((Nat.gcd a b : Nat) : Int) := by
-  unfold extendedGcd
-  exact extendedGcdAux_fst _ a b (by omega)
 
 /-! ### the residue class -/
 
@@ -70,111 +47,6 @@ theorem lcm_dvd_int {s t : Nat} {z : Int} (h1 : (s : Int) ∣ z) (h2 : (t : Int)
   have := Nat.lcm_dvd h1 h2
   rw [← Int.natAbs_dvd_natAbs]
   simpa using this
-
-/-- **the verified candidate is sound.** If both strides are positive, every common member `x` lies in
-the residue class the computation returns — unless it gives up with `Err`. (`hprod`: the product of
-the strides fits into an `i128`, so that `lcm` is not a wrapped value.) -/
-theorem residueClass_spec (I J : Interval) (hI : I.WF) (hJ : J.WF) (hsI : I.stride ≠ 0) (hsJ : J.stride ≠ 0)
-    (hprod : I.stride * J.stride < 2 ^ 127) {x : Int} (hxI : I.Mem x) (hxJ : J.Mem x)
-    (hne : computeIntersectionResidueClass I J ≠ .err) :
-    ∃ stride rem : Nat, computeIntersectionResidueClass I J = .some stride rem ∧ 0 < stride ∧ stride < 2 ^ 64 ∧
-      (stride : Int) ∣ x - rem := by
-  have hIu := hI.2.2.2.2.2.2
-  have hJu := hJ.2.2.2.2.2.2
-  have hgpos : 0 < Nat.gcd I.stride J.stride := Nat.gcd_pos_of_pos_left _ (by omega)
-  have hslp : (0 : Int) < (I.stride : Int) := by omega
-  have hsrp : (0 : Int) < (J.stride : Int) := by omega
-  have hgp : (0 : Int) < ((Nat.gcd I.stride J.stride : Nat) : Int) := by omega
-  have hgl : ((Nat.gcd I.stride J.stride : Nat) : Int) ∣ (I.stride : Int) :=
-    Int.natCast_dvd_natCast.mpr (Nat.gcd_dvd_left _ _)
-  have hgr : ((Nat.gcd I.stride J.stride : Nat) : Int) ∣ (J.stride : Int) :=
-    Int.natCast_dvd_natCast.mpr (Nat.gcd_dvd_right _ _)
-  -- the lcm as computed
-  have hlcmN : I.stride / Nat.gcd I.stride J.stride * J.stride = Nat.lcm I.stride J.stride := by
-    unfold Nat.lcm
-    rw [Nat.mul_div_right_comm (Nat.gcd_dvd_left _ _)]
-  have hlcm_le : Nat.lcm I.stride J.stride ≤ I.stride * J.stride := by
-    rw [← hlcmN]
-    exact Nat.mul_le_mul_right _ (Nat.div_le_self _ _)
-  have hlcm_pos : 0 < Nat.lcm I.stride J.stride := Nat.lcm_pos (by omega) (by omega)
-  unfold computeIntersectionResidueClass at hne ⊢
-  rw [if_neg (by intro h; exact hsI h.1), if_neg hsI, if_neg hsJ] at hne ⊢
-  simp only at hne ⊢
-  -- destructure the result of `extended_gcd`
-  have hg := extendedGcd_fst I.stride J.stride
-  generalize hE : extendedGcd (I.stride : Int) (J.stride : Int) = E at *
-  obtain ⟨g, li, ri⟩ := E
-  simp only at hg hne ⊢
-  subst hg
-  -- the remainders of the (normalised) start values modulo the gcd agree
-  have hbl0 : 0 ≤ I.start % (I.stride : Int) := Int.emod_nonneg _ (by omega)
-  have hbr0 : 0 ≤ J.start % (J.stride : Int) := Int.emod_nonneg _ (by omega)
-  have hbl1 : I.start % (I.stride : Int) < (I.stride : Int) := Int.emod_lt_of_pos _ hslp
-  have hbr1 : J.start % (J.stride : Int) < (J.stride : Int) := Int.emod_lt_of_pos _ hsrp
-  have hremeq : trem (I.start % (I.stride : Int)) ((Nat.gcd I.stride J.stride : Nat) : Int)
-      = trem (J.start % (J.stride : Int)) ((Nat.gcd I.stride J.stride : Nat) : Int) := by
-    unfold trem
-    rw [Int.tmod_eq_emod_of_nonneg hbl0, Int.tmod_eq_emod_of_nonneg hbr0,
-      Int.emod_emod_of_dvd _ hgl, Int.emod_emod_of_dvd _ hgr]
-    -- both equal x % g
-    have e1 : I.start % ((Nat.gcd I.stride J.stride : Nat) : Int) = x % ((Nat.gcd I.stride J.stride : Nat) : Int) := by
-      apply Int.emod_eq_emod_iff_emod_sub_eq_zero.mpr
-      apply Int.emod_eq_zero_of_dvd
-      have : I.start - x = -(x - I.start) := by omega
-      rw [this]; exact Int.dvd_neg.mpr (Int.dvd_trans hgl hxI.2.2)
-    have e2 : J.start % ((Nat.gcd I.stride J.stride : Nat) : Int) = x % ((Nat.gcd I.stride J.stride : Nat) : Int) := by
-      apply Int.emod_eq_emod_iff_emod_sub_eq_zero.mpr
-      apply Int.emod_eq_zero_of_dvd
-      have : J.start - x = -(x - J.start) := by omega
-      rw [this]; exact Int.dvd_neg.mpr (Int.dvd_trans hgr hxJ.2.2)
-    rw [e1, e2]
-  rw [if_neg (by intro h; exact h hremeq)] at hne ⊢
-  -- the lcm is not a wrapped value
-  have hq : tquot (I.stride : Int) ((Nat.gcd I.stride J.stride : Nat) : Int)
-      = ((I.stride / Nat.gcd I.stride J.stride : Nat) : Int) := by
-    unfold tquot
-    rw [Int.tdiv_eq_ediv_of_nonneg (by omega), Int.natCast_ediv]
-  have hlcmI : i128 (tquot (I.stride : Int) ((Nat.gcd I.stride J.stride : Nat) : Int) * (J.stride : Int))
-      = ((Nat.lcm I.stride J.stride : Nat) : Int) := by
-    rw [hq, ← Int.natCast_mul, hlcmN]
-    apply i128_of_small
-    · omega
-    · have h1 : ((Nat.lcm I.stride J.stride : Nat) : Int) ≤ ((I.stride * J.stride : Nat) : Int) :=
-        Int.ofNat_le.mpr hlcm_le
-      have h2 : ((I.stride * J.stride : Nat) : Int) < ((2 ^ 127 : Nat) : Int) := Int.ofNat_lt.mpr hprod
-      have : ((2 ^ 127 : Nat) : Int) = 2 ^ 127 := by decide
-      omega
-  rw [hlcmI] at hne ⊢
-  clear hprod hlcmI
-  generalize hRC : (i128 (i128 (trem (i128 (tquot (trem (J.start % (J.stride : Int)) ((Nat.lcm I.stride J.stride : Nat) : Int)) ((Nat.gcd I.stride J.stride : Nat) : Int) * i128 (li * (I.stride : Int)))) ((Nat.lcm I.stride J.stride : Nat) : Int) + trem (i128 (tquot (trem (I.start % (I.stride : Int)) ((Nat.lcm I.stride J.stride : Nat) : Int)) ((Nat.gcd I.stride J.stride : Nat) : Int) * i128 (ri * (J.stride : Int)))) ((Nat.lcm I.stride J.stride : Nat) : Int)) + trem (I.start % (I.stride : Int)) ((Nat.gcd I.stride J.stride : Nat) : Int))) % ((Nat.lcm I.stride J.stride : Nat) : Int) = rc at *
-  have hLp : (0 : Int) < ((Nat.lcm I.stride J.stride : Nat) : Int) := by omega
-  have hrc0 : 0 ≤ rc := by rw [← hRC]; exact Int.emod_nonneg _ (by omega)
-  have hrc1 : rc < ((Nat.lcm I.stride J.stride : Nat) : Int) := by rw [← hRC]; exact Int.emod_lt_of_pos _ hLp
-  split
-  · rename_i hchk
-    obtain ⟨c1, _, _, c4, c5⟩ := hchk
-    have hL64 : ((Nat.lcm I.stride J.stride : Nat) : Int) < 2 ^ 64 := by omega
-    have hIu' : ((I.stride : Nat) : Int) < 2 ^ 64 := by exact_mod_cast hIu
-    have hJu' : ((J.stride : Nat) : Int) < 2 ^ 64 := by exact_mod_cast hJu
-    rw [i128_of_small (by omega) (by omega)] at c4 c5
-    have d4 : (I.stride : Int) ∣ I.start % (I.stride : Int) - rc := Int.dvd_of_tmod_eq_zero c4
-    have d5 : (J.stride : Int) ∣ J.start % (J.stride : Int) - rc := Int.dvd_of_tmod_eq_zero c5
-    have dI : (I.stride : Int) ∣ x - rc := by
-      have : x - rc = (x - I.start) + (I.start - I.start % (I.stride : Int)) + (I.start % (I.stride : Int) - rc) := by omega
-      rw [this]; exact Int.dvd_add (Int.dvd_add hxI.2.2 (dvd_sub_emod' _ _)) d4
-    have dJ : (J.stride : Int) ∣ x - rc := by
-      have : x - rc = (x - J.start) + (J.start - J.start % (J.stride : Int)) + (J.start % (J.stride : Int) - rc) := by omega
-      rw [this]; exact Int.dvd_add (Int.dvd_add hxJ.2.2 (dvd_sub_emod' _ _)) d5
-    refine ⟨_, _, rfl, ?_, ?_, ?_⟩
-    · rw [toU64_nat_of_lt (by omega) hL64]; omega
-    · rw [toU64_nat_of_lt (by omega) hL64]
-      have : ((2 ^ 64 : Nat) : Int) = 2 ^ 64 := by decide
-      omega
-    · rw [toU64_of_lt (by omega) hL64, toU64_of_lt hrc0 (by omega)]
-      exact lcm_dvd_int dI dJ
-  · rename_i hchk
-    rw [if_neg hchk] at hne
-    exact absurd rfl hne
 
 /-! ### `Interval::signed_intersect` -/
 
@@ -265,30 +137,32 @@ theorem signedIntersect_of_residue (I J : Interval) (hI : I.WF) (hJ : J.WF) (hw 
         hw0 hw64' hsr her hst0 hst64 (x := x) hs1 he1 hdvd
       exact ⟨r, hr, hmem, hrwf, hrw⟩
 
+/-- a common member makes the start values congruent modulo the gcd of the strides -/
+theorem cong_of_common (I J : Interval) {x : Int} (hxI : I.Mem x) (hxJ : J.Mem x) :
+    I.start % ((Nat.gcd I.stride J.stride : Nat) : Int) = J.start % ((Nat.gcd I.stride J.stride : Nat) : Int) := by
+  have hgl : ((Nat.gcd I.stride J.stride : Nat) : Int) ∣ (I.stride : Int) :=
+    Int.natCast_dvd_natCast.mpr (Nat.gcd_dvd_left _ _)
+  have hgr : ((Nat.gcd I.stride J.stride : Nat) : Int) ∣ (J.stride : Int) :=
+    Int.natCast_dvd_natCast.mpr (Nat.gcd_dvd_right _ _)
+  have e1 : I.start % ((Nat.gcd I.stride J.stride : Nat) : Int) = x % ((Nat.gcd I.stride J.stride : Nat) : Int) := by
+    apply Int.emod_eq_emod_iff_emod_sub_eq_zero.mpr
+    apply Int.emod_eq_zero_of_dvd
+    have : I.start - x = -(x - I.start) := by omega
+    rw [this]; exact Int.dvd_neg.mpr (Int.dvd_trans hgl hxI.2.2)
+  have e2 : J.start % ((Nat.gcd I.stride J.stride : Nat) : Int) = x % ((Nat.gcd I.stride J.stride : Nat) : Int) := by
+    apply Int.emod_eq_emod_iff_emod_sub_eq_zero.mpr
+    apply Int.emod_eq_zero_of_dvd
+    have : J.start - x = -(x - J.start) := by omega
+    rw [this]; exact Int.dvd_neg.mpr (Int.dvd_trans hgr hxJ.2.2)
+  rw [e1, e2]
+
 /-- the residue class for a common member when the lcm of the strides fits into a `u64` -/
 theorem residueClass_of_lcm (I J : Interval) (hI : I.WF) (hJ : J.WF) (hsI : I.stride ≠ 0) (hsJ : J.stride ≠ 0)
     (hL : Nat.lcm I.stride J.stride < 2 ^ 64) {x : Int} (hxI : I.Mem x) (hxJ : J.Mem x) :
     ∃ stride rem : Nat, computeIntersectionResidueClass I J = .some stride rem ∧ 0 < stride ∧ stride < 2 ^ 64 ∧
       (stride : Int) ∣ x - rem := by
-  have hgl : ((Nat.gcd I.stride J.stride : Nat) : Int) ∣ (I.stride : Int) :=
-    Int.natCast_dvd_natCast.mpr (Nat.gcd_dvd_left _ _)
-  have hgr : ((Nat.gcd I.stride J.stride : Nat) : Int) ∣ (J.stride : Int) :=
-    Int.natCast_dvd_natCast.mpr (Nat.gcd_dvd_right _ _)
   rcases residueClass_total I J hI hJ hsI hsJ hL with ⟨_, hne⟩ | ⟨rc, hres, _, d1, d2⟩
-  · -- a common member makes the start values congruent modulo the gcd
-    exfalso
-    apply hne
-    have e1 : I.start % ((Nat.gcd I.stride J.stride : Nat) : Int) = x % ((Nat.gcd I.stride J.stride : Nat) : Int) := by
-      apply Int.emod_eq_emod_iff_emod_sub_eq_zero.mpr
-      apply Int.emod_eq_zero_of_dvd
-      have : I.start - x = -(x - I.start) := by omega
-      rw [this]; exact Int.dvd_neg.mpr (Int.dvd_trans hgl hxI.2.2)
-    have e2 : J.start % ((Nat.gcd I.stride J.stride : Nat) : Int) = x % ((Nat.gcd I.stride J.stride : Nat) : Int) := by
-      apply Int.emod_eq_emod_iff_emod_sub_eq_zero.mpr
-      apply Int.emod_eq_zero_of_dvd
-      have : J.start - x = -(x - J.start) := by omega
-      rw [this]; exact Int.dvd_neg.mpr (Int.dvd_trans hgr hxJ.2.2)
-    rw [e1, e2]
+  · exact absurd (cong_of_common I J hxI hxJ) hne
   · refine ⟨_, rc, hres, Nat.lcm_pos (by omega) (by omega), hL, ?_⟩
     have dI : (I.stride : Int) ∣ x - rc := by
       have : x - rc = (x - I.start) + (I.start - rc) := by omega
@@ -308,15 +182,33 @@ theorem signedIntersect_spec (I J : Interval) (hI : I.WF) (hJ : J.WF) (hw : J.w 
   signedIntersect_of_residue I J hI hJ hw hxI hxJ
     (fun _ hsI hsJ => residueClass_of_lcm I J hI hJ hsI hsJ hL hxI hxJ)
 
-/-- the same for strides whose lcm exceeds `u64::MAX`, where the code documents that it gives up:
-under the hypothesis that the chinese-remainder computation does not answer `Err("Integer overflow …")`
-(and that the product of the strides is below `2^127`, so that the computed lcm is not a wrapped value) -/
-theorem signedIntersect_spec_partial (I J : Interval) (hI : I.WF) (hJ : J.WF) (hw : J.w = I.w)
-    (hprod : I.stride * J.stride < 2 ^ 127) (hne : computeIntersectionResidueClass I J ≠ .err)
+/-- **C04-intersect-gives-up (intervals).** For operands of at most 64 bit whose strides have an lcm above
+`u64::MAX`, `signed_intersect` answers `Err` whenever the operands share a member (the residue
+computation reports "integer overflow"; the code documents this). -/
+theorem signedIntersect_gives_up (I J : Interval) (hI : I.WF) (hJ : J.WF) (hw64 : I.w ≤ 64)
+    (hL : 2 ^ 64 ≤ Nat.lcm I.stride J.stride) {x : Int} (hxI : I.Mem x) (hxJ : J.Mem x) :
+    I.signedIntersect J = none := by
+  have hsI : I.stride ≠ 0 := by
+    intro h; rw [h, Nat.lcm_zero_left] at hL; omega
+  have hsJ : J.stride ≠ 0 := by
+    intro h; rw [h, Nat.lcm_zero_right] at hL; omega
+  have herr := residueClass_err_of_big I J hI hJ hsI hsJ hL (cong_of_common I J hxI hxJ)
+  unfold Interval.signedIntersect
+  simp only
+  rw [if_neg (by intro h; exact hsI h.1), if_neg (by omega), herr]
+
+/-- **C04-intersect-complete (intervals).** What `signed_intersect` does with a common member `x` of two
+well-formed intervals of equal width, for ALL operands: it is kept — or the operands have at most 64
+bit, the lcm of their strides exceeds `u64::MAX` and the answer is `Err`. -/
+theorem signedIntersect_complete (I J : Interval) (hI : I.WF) (hJ : J.WF) (hw : J.w = I.w)
     {x : Int} (hxI : I.Mem x) (hxJ : J.Mem x) :
-    ∃ r, I.signedIntersect J = some r ∧ r.Mem x ∧ r.WF ∧ r.w = I.w :=
-  signedIntersect_of_residue I J hI hJ hw hxI hxJ
-    (fun _ hsI hsJ => residueClass_spec I J hI hJ hsI hsJ hprod hxI hxJ hne)
+    (∃ r, I.signedIntersect J = some r ∧ r.Mem x ∧ r.WF ∧ r.w = I.w) ∨
+    (I.w ≤ 64 ∧ 2 ^ 64 ≤ Nat.lcm I.stride J.stride ∧ I.signedIntersect J = none) := by
+  by_cases hL : Nat.lcm I.stride J.stride < 2 ^ 64
+  · exact .inl (signedIntersect_spec I J hI hJ hw hL hxI hxJ)
+  · by_cases hw64 : I.w ≤ 64
+    · exact .inr ⟨hw64, by omega, signedIntersect_gives_up I J hI hJ hw64 (by omega) hxI hxJ⟩
+    · exact .inl (signedIntersect_of_residue I J hI hJ hw hxI hxJ (fun h => absurd h hw64))
 
 /-! ### `IntervalDomain::intersect` -/
 
@@ -371,16 +263,20 @@ theorem intersect_none_no_common (a b : IntervalDomain) (ha : a.WF) (hb : b.WF) 
   rw [hnone] at hr
   cases hr
 
-/-- the same statement for strides with `lcm > u64::MAX`. `_partial`: under the hypothesis that the
-chinese-remainder computation does not give up with `Err("Integer overflow …")` (it documents that it
-does so when the stride of the intersection exceeds `u64::MAX`; known finding
-`intersect-lcm-overflow-false-unsat`) and that the product of the strides is below `2^127`. -/
-theorem intersect_sound_partial (a b : IntervalDomain) (ha : a.WF) (hb : b.WF) (hw : b.interval.w = a.interval.w)
-    (hprod : a.interval.stride * b.interval.stride < 2 ^ 127)
-    (hne : computeIntersectionResidueClass a.interval b.interval ≠ .err)
-    {x : Int} (hxa : a.Mem x) (hxb : b.Mem x) : ∃ r, a.intersect b = some r ∧ r.Mem x := by
-  obtain ⟨I, hI, hmem, _, _⟩ := signedIntersect_spec_partial a.interval b.interval ha.1 hb.1 hw hprod hne hxa hxb
-  exact intersect_of_interval a b ⟨I, hI, hmem⟩
+/-- **C04-intersect-complete.** For ALL well-formed operands of equal width and every common member `x`:
+`intersect` keeps `x`, or — only for operands of at most 64 bit whose strides have an lcm above
+`u64::MAX` — it answers `Err`. The second case is the documented give-up of
+`compute_intersection_residue_class` (known finding `intersect-lcm-overflow-false-unsat`): there the
+property "unsatisfiable only without a common member" does not hold for the code. -/
+theorem intersect_complete (a b : IntervalDomain) (ha : a.WF) (hb : b.WF) (hw : b.interval.w = a.interval.w)
+    {x : Int} (hxa : a.Mem x) (hxb : b.Mem x) :
+    (∃ r, a.intersect b = some r ∧ r.Mem x) ∨
+    (a.interval.w ≤ 64 ∧ 2 ^ 64 ≤ Nat.lcm a.interval.stride b.interval.stride ∧ a.intersect b = none) := by
+  rcases signedIntersect_complete a.interval b.interval ha.1 hb.1 hw hxa hxb with ⟨I, hI, hmem, _, _⟩ | ⟨h1, h2, h3⟩
+  · exact .inl (intersect_of_interval a b ⟨I, hI, hmem⟩)
+  · refine .inr ⟨h1, h2, ?_⟩
+    unfold IntervalDomain.intersect
+    rw [h3]
 
 /-! ### non-vacuity -/
 
@@ -394,11 +290,15 @@ example : ∃ r, exI.intersect exJ = some r ∧ r.Mem 45 :=
     ⟨by decide, (by intro u h; cases h), (by intro l h; cases h), by decide⟩ rfl (by decide)
     (by decide) (by decide)
 
-example : ∃ r, exI.intersect exJ = some r ∧ r.Mem 45 :=
-  intersect_sound_partial exI exJ
+/-- the witness of the known finding: `{4, 4 + 2313877300527753421, …}` ∩ `{4, 4 + 1610612736}` (8 byte) -/
+def exK : IntervalDomain := ⟨⟨64, 4, 4 + 2313877300527753421 * 3, 2313877300527753421⟩, none, none, 0⟩
+def exM : IntervalDomain := ⟨⟨64, 4, 4 + 1610612736, 1610612736⟩, none, none, 0⟩
+
+example : exK.intersect exM = none :=
+  ((intersect_complete exK exM
     ⟨by decide, (by intro u h; cases h), (by intro l h; cases h), by decide⟩
-    ⟨by decide, (by intro u h; cases h), (by intro l h; cases h), by decide⟩ rfl (by decide) (by decide)
-    (by decide) (by decide)
+    ⟨by decide, (by intro u h; cases h), (by intro l h; cases h), by decide⟩ rfl
+    (x := 4) (by decide) (by decide)).resolve_left (by decide)).2.2
 
 example : exI.intersect exJ = some ⟨⟨8, 45, 45, 0⟩, none, none, 0⟩ := by decide
 
